@@ -188,8 +188,12 @@ func runCLI(in []byte) (*reg.Result, error) {
 						tmplImports, tmplWKT = false, false
 					}
 				}
-				p1 := fmt.Sprintf("  - local: [%q, \"codegen-plugin\"]\n    out: out\n    opt:\n      - log=%s\n      - name=p1\n    strategy: %s\n    include_imports: %v\n    include_wkt: %v\n",
-					exe, logDir, c.Strategy, tmplImports, tmplWKT)
+				p1 := fmt.Sprintf("  - local: [%q, \"codegen-plugin\"]\n    out: out\n    opt:\n      - log=%s\n      - name=p1\n    strategy: %s\n    include_imports: %v\n",
+					exe, logDir, c.Strategy, tmplImports)
+				// (a key that is false is left out in every other case: unset means false, whatever include_imports says)
+				if tmplWKT || i%2 == 0 {
+					p1 += fmt.Sprintf("    include_wkt: %v\n", tmplWKT)
+				}
 				// a second plugin with a type filter of its own, before or after the observed one: it must not change
 				// what the observed plugin receives
 				first := c.Targets[0]
